@@ -61,7 +61,7 @@ fn run<G: Group>(sc: &Scenario, st: &mut RunStats) -> Vec<Violation> {
     // an honest companion (same bits / ext, a single commitment) for deliveries in a batch context:
     // the altered triple is then neither alone nor, when m >= 2, the first or the smallest member
     let ccfg = Config { bits: sc.cfg.bits, m: 1, cap: 1, ext: sc.cfg.ext };
-    let cwit = WitnessSpec { values: vec![0], promises: vec![None], blind_seed: sc.fault_seed ^ 0x5EED, seed_nonce: None };
+    let cwit = WitnessSpec { values: vec![0], promises: vec![None], blind_seed: sc.fault_seed ^ 0x5EED, seed_nonce: None, zero_blind: vec![] };
     let cctx = Context { label: 7, extra: None };
     let cbuilt = build::<G>(&ccfg, &cwit);
     let companion = match prove_mode::<G>(&cctx, &cbuilt.statement, &cbuilt.witness, &RngMode::Healthy(sc.rng_seed ^ 1)).0 {
@@ -122,6 +122,40 @@ fn run<G: Group>(sc: &Scenario, st: &mut RunStats) -> Vec<Violation> {
                         ),
                     ));
                     return out;
+                }
+            }
+        }
+        // duplicate delivery: the accepted original immediately followed (or preceded) by its altered copy
+        if !encoding_only {
+            if let (Ok(Delivered::Ready(ost, opr)), Ok(Delivered::Ready(bst, bpr))) = (guarded(|| msg.open()), guarded(|| bad.open())) {
+                for altered_first in [false, true] {
+                    let (sts, prs, ctxs): (Vec<_>, Vec<_>, Vec<&Context>) = if altered_first {
+                        (vec![bst.clone(), ost.clone()], vec![bpr.clone(), opr.clone()], vec![&bad.ctx, &msg.ctx])
+                    } else {
+                        (vec![ost.clone(), bst.clone()], vec![opr.clone(), bpr.clone()], vec![&msg.ctx, &bad.ctx])
+                    };
+                    for a in [VerifyAction::VerifyOnly, VerifyAction::RecoverAndVerify] {
+                        st.evals += 1;
+                        let r = verify::<G>(&ctxs, &sts, &prs, a);
+                        st.probe("delivered_next_to_its_original");
+                        if !is_err(&r) {
+                            out.push(Violation::new(
+                                if is_ok(&r) { "altered_triple_accepted" } else { "altered_triple_panicked" },
+                                format!("{:?} next to original", f),
+                                format!(
+                                    "fault #{} {:?} applied to an accepted triple (cfg={:?}, group {}), delivered in a batch {} the unaltered original, mode {}: {}",
+                                    i,
+                                    f,
+                                    sc.cfg,
+                                    G::NAME,
+                                    if altered_first { "before" } else { "after" },
+                                    action_name(a),
+                                    render_verify(&r)
+                                ),
+                            ));
+                            return out;
+                        }
+                    }
                 }
             }
         }
@@ -268,7 +302,7 @@ impl Check for C05 {
             "flip_bit", "replace_scalar", "replace_point", "drop_round", "add_round", "retag_extension", "truncate",
             "extend", "swap_commitments", "replace_commitment", "promise", "bits", "generator_h", "generator_g",
             "context_label", "context_extra", "ext_6", "ext_4", "m_ge_8", "aggregated", "add_many_rounds",
-            "delivered_in_batch_context",
+            "delivered_in_batch_context", "delivered_next_to_its_original",
         ]
     }
 }
